@@ -887,7 +887,7 @@ def plan(prop, tier):
         add(module='std', algo='lru', backend='none', N=4, canary=True)
         add(module='std', algo='mru', backend='none', N=4, canary=True)
     elif prop == 'C07':
-        N = 5 if q else 7
+        N = 5 if q else 6
         for m in mods:
             for a in ('no',) + BOUNDED:
                 purges = (False, True) if a in BOUNDED else (False,)
@@ -898,7 +898,7 @@ def plan(prop, tier):
                     if m == 'std' or not q:
                         for b in PERSISTENT_BACKENDS:
                             add(module=m, algo=a, purge=p, backend=b, keymap='strflat' if b == 'sql' else 'raw', N=3 if q else 4, maxsize=1 if q else 'sym')
-                    add(module=m, algo=a, purge=p, backend='cached_dict', N=3 if q else 4, ops='mgmt')
+                    add(module=m, algo=a, purge=p, backend='cached_dict', N=3, ops='mgmt')
                     if a in BOUNDED:
                         add(module=m, algo=a, purge=p, backend='cached_dict', N=4 if q else 6, second=2 if q else 3, second_same=True, scenario='redecorate')
                     # what another process sees (new handle / new sqlite connection), and results an archive cannot encode
